@@ -466,62 +466,100 @@ def tokN (n : Nat) : SubTok := ⟨some n, n⟩
 /-- `uint8(int)` -/
 def u8i (v : Int) : Nat := (v % 256).toNat
 
-def ssColour (cfg : Cfg) (p : Nat) (subs : List SubTok) : Except Panic (Option Color) :=
+/-- `strconv.Atoi(params[k])` on a whole `;`-separated parameter (not split on `:`): a parameter with
+    a colon in it is a syntax error, i.e. 0. -/
+def rawAtoi (subs : List SubTok) : Int :=
+  match subs with
+  | [t] => t.atoi
+  | _ => 0
+
+/-- `params[k] == "n"` on the unsplit parameter text. -/
+def rawIs (subs : List SubTok) (n : Nat) : Bool :=
+  match subs with
+  | [t] => t.lab == some n
+  | _ => false
+
+/-- `legacySGRColor(params[i+1:])` (since the `fix:` for F118): the parameters after a bare 38 / 48 / 58,
+    `5;n` or `2;r;g;b`; the colour and the number of parameters used, `none` when malformed. -/
+def ssLegacy (rest : List (List SubTok)) : Option (Color × Nat) :=
+  match rest with
+  | k :: a :: tl =>
+    if rawIs k 5 then some (indexColor (u8i (rawAtoi a)), 2)
+    else if rawIs k 2 then
+      match tl with
+      | b :: c :: _ => some (rgbColor (u8i (rawAtoi a)) (u8i (rawAtoi b)) (u8i (rawAtoi c)), 4)
+      | _ => none
+    else none
+  | _ => none
+
+/-- `case "38" / "48" / "58"`: `subs` = the current parameter split on `:`, `rest = params[i+1:]`.
+    Returns the colour (if any) and how many further parameters were used (`i += n`). -/
+def ssColour (cfg : Cfg) (p : Nat) (subs : List SubTok) (rest : List (List SubTok)) : Except Panic (Option Color × Nat) :=
   let n := subs.length
-  if !cfg.accepts p n then .ok none
+  if !cfg.accepts p n then .ok (none, 0)
+  else if n = 1 then
+    match ssLegacy rest with
+    | some (c, k) => .ok (some c, k)
+    | none => .ok (none, 0)
   else if n = 3 then
     match idx subs 2 with
-    | .ok v => .ok (some (indexColor (u8i v.atoi)))
+    | .ok v => .ok (some (indexColor (u8i v.atoi)), 0)
     | .error e => .error e
   else if n = 5 then
     match idx subs 2, idx subs 3, idx subs 4 with
-    | .ok r, .ok g, .ok b => .ok (some (rgbColor (u8i r.atoi) (u8i g.atoi) (u8i b.atoi)))
+    | .ok r, .ok g, .ok b => .ok (some (rgbColor (u8i r.atoi) (u8i g.atoi) (u8i b.atoi)), 0)
     | _, _, _ => .error .index
-  else .ok none
+  else .ok (none, 0)
 
-/-- One `param` of the `for _, param := range params` loop. -/
-def ssOne (cfg : Cfg) (dflt : Style) (s : Style) (subs : List SubTok) : Except Panic Style :=
+/-- One iteration of `for i := 0; i < len(params); i += 1`: the new style and the extra `i += n`. -/
+def ssOne (cfg : Cfg) (dflt : Style) (s : Style) (subs : List SubTok) (rest : List (List SubTok)) :
+    Except Panic (Style × Nat) :=
   match idx subs 0 with
   | .error e => .error e
   | .ok h =>
     match h.lab with
-    | none => .ok s
+    | none => .ok (s, 0)
     | some p =>
-      if !cfg.labels.contains p then .ok s
-      else if p = 0 then .ok dflt
+      if !cfg.labels.contains p then .ok (s, 0)
+      else if p = 0 then .ok (dflt, 0)
       else if p = 38 then
-        match ssColour cfg 38 subs with
+        match ssColour cfg 38 subs rest with
         | .error e => .error e
-        | .ok (some c) => .ok { s with fg := c }
-        | .ok none => .ok s
+        | .ok (some c, k) => .ok ({ s with fg := c }, k)
+        | .ok (none, k) => .ok (s, k)
       else if p = 48 then
-        match ssColour cfg 48 subs with
+        match ssColour cfg 48 subs rest with
         | .error e => .error e
-        | .ok (some c) => .ok { s with bg := c }
-        | .ok none => .ok s
+        | .ok (some c, k) => .ok ({ s with bg := c }, k)
+        | .ok (none, k) => .ok (s, k)
       else if p = 58 then
-        match ssColour cfg 58 subs with
+        match ssColour cfg 58 subs rest with
         | .error e => .error e
-        | .ok (some c) => .ok { s with ul := c }
-        | .ok none => .ok s
+        | .ok (some c, k) => .ok ({ s with ul := c }, k)
+        | .ok (none, k) => .ok (s, k)
       else if p = 4 then
-        if !cfg.accepts 4 subs.length then .ok s
+        if !cfg.accepts 4 subs.length then .ok (s, 0)
         else if subs.length > 1 then
           match idx subs 1 with
           | .error e => .error e
           | .ok k =>
             match k.lab with
-            | some k => if cfg.ulSubs.contains k then .ok { s with ulStyle := ulConst k } else .ok s
-            | none => .ok s
-        else .ok { s with ulStyle := SgrCases.UnderlineSingle }
-      else .ok (simple p s)
+            | some k => if cfg.ulSubs.contains k then .ok ({ s with ulStyle := ulConst k }, 0) else .ok (s, 0)
+            | none => .ok (s, 0)
+        else .ok ({ s with ulStyle := SgrCases.UnderlineSingle }, 0)
+      else .ok (simple p s, 0)
 
-def ssLoop (cfg : Cfg) (dflt : Style) : List (List SubTok) → Style → Except Panic Style
-  | [], s => .ok s
-  | subs :: rest, s =>
-    match ssOne cfg dflt s subs with
+/-- The parameter loop with its `i += n` jumps: `skip` more elements are passed over. -/
+def ssLoopK (cfg : Cfg) (dflt : Style) : Nat → List (List SubTok) → Style → Except Panic Style
+  | _, [], s => .ok s
+  | k + 1, _ :: rest, s => ssLoopK cfg dflt k rest s
+  | 0, subs :: rest, s =>
+    match ssOne cfg dflt s subs rest with
     | .error e => .error e
-    | .ok s' => ssLoop cfg dflt rest s'
+    | .ok (s', k) => ssLoopK cfg dflt k rest s'
+
+def ssLoop (cfg : Cfg) (dflt : Style) (ps : List (List SubTok)) (s : Style) : Except Panic Style :=
+  ssLoopK cfg dflt 0 ps s
 
 /-- The body of `case strings.HasPrefix(s, "\x1b[")` once the text up to `m` is cut and split:
     the empty text means `style = defaultStyle`. -/
